@@ -540,6 +540,15 @@ def gen_render_table():
     if units_if is None or accum is None:
         raise Unsupported('make_model_image: units / accumulation statements not found')
     units_mentions_index = any(isinstance(n, ast.Name) and n.id == 'i' for n in ast.walk(units_if.test))
+    # after the loop: `if len(params_table) > 0 and not isinstance(image, u.Quantity): value = model(x0, y0); if Quantity: image <<= unit`
+    after = fn.body[fn.body.index(loop) + 1:]
+    post_units = False
+    for st in after:
+        if isinstance(st, ast.If):
+            t = ast.unparse(st.test).replace(' ', '')
+            attaches = any(isinstance(b, ast.AugAssign) and isinstance(b.op, ast.LShift) and ast.unparse(b.target) == 'image' for b in ast.walk(st))
+            if attaches and 'len(params_table)>0' in t and 'notisinstance(image,u.Quantity)' in t:
+                post_units = True
     rhs = ast.unparse(accum.value)
     adds_bkg = 'local_bkg' in rhs and 'subimg' in rhs
     trim = any(isinstance(c, ast.Call) and getattr(c.func, 'id', '') == 'overlap_slices'
@@ -554,6 +563,8 @@ def gen_render_table():
            'import PhotVerif.Model.Prelude\nnamespace PhotVerif.Gen.RenderTable\n\n'
            f'/-- the statement attaching units is conditioned on the row index -/\n'
            f'def unitsDependOnRowIndex : Bool := {b(units_mentions_index)}\n'
+           f'/-- after the loop a non-empty table whose rows all missed the image still attaches the unit of the model value -/\n'
+           f'def attachesUnitAfterLoop : Bool := {b(post_units)}\n'
            f'/-- `image[slc] += subimg + local_bkg[i]` -/\n'
            f'def accumulatesStampPlusBkg : Bool := {b(adds_bkg)}\n'
            f'/-- rows raising NoOverlapError are skipped with `continue` -/\n'
@@ -608,7 +619,9 @@ def gen_bkg_consts():
     med_guarded = 'np.logical_and(med_mask,np.logical_not(mean_mask))' in src_calc.replace(' ', '')
     thr = _cls_method(t2, 'Background2D', '_good_npixels_threshold')
     thr_expr = ast.unparse(next(n for n in ast.walk(thr) if isinstance(n, ast.Return)).value).replace(' ', '')
-    thr_ok = thr_expr == '(1-self.exclude_percentile/100.0)*self._box_npixels'
+    # both spellings denote (1 - p/100) * npix exactly; the second one is also exact in floating point whenever the value is an integer
+    thr_ok = thr_expr in ('(1-self.exclude_percentile/100.0)*self._box_npixels', '(100.0-self.exclude_percentile)*self._box_npixels/100.0')
+    thr_exact = thr_expr == '(100.0-self.exclude_percentile)*self._box_npixels/100.0'
     stats = _cls_method(t2, 'Background2D', '_compute_box_statistics')
     cmp_ = next((n for n in ast.walk(stats) if isinstance(n, ast.Assign) and isinstance(n.targets[0], ast.Name)
                  and n.targets[0].id == 'box_mask'), None)
@@ -651,6 +664,8 @@ def gen_bkg_consts():
            f'def sexMedianOverrideGuarded : Bool := {b(med_guarded)}\n'
            f'/-- `_good_npixels_threshold = (1 - exclude_percentile / 100.0) * _box_npixels` with `_box_npixels = prod(box_size)` -/\n'
            f'def thresholdIsFractionOfFullBox : Bool := {b(thr_ok and npix)}\n'
+           f'/-- the formula is written as `(100 - p) * npix / 100`: one rounding, exact whenever the threshold is an integer -/\n'
+           f'def thresholdExactWhenInteger : Bool := {b(thr_exact)}\n'
            f'/-- box exclusion: "le" = `ngood <= threshold`; "lt-or-zero" = `(ngood < threshold) | (ngood == 0)`; `ngood` counts the clipped box -/\n'
            f'def exclusionRule : String := {lean_str(excl_op)}\n'
            f'def exclusionComparesNgood : Bool := {b(excl_ok and ngood_ok)}\n'
